@@ -24,3 +24,17 @@ package ecs
 //@   ensures  free: stats.FreeTables == len(a.freeTables)
 //@   ensures  tables: len(stats.Tables) == len(a.tables.tables)
 //@   ensures  per-table: forall p int :: 0 <= p && p < len(a.tables.tables) ==> stats.Tables[p].Size == int(storage.tables[a.tables.tables[p]].len) && stats.Tables[p].Capacity == int(storage.tables[a.tables.tables[p]].cap)
+
+// archetype.Stats (first report of an archetype): the same per-table and free-table figures as
+// UpdateStats, computed from the archetype's own table lists.
+//@ func (*archetype).Stats
+//@   serves C19
+//@   requires archStatsPre(a, storage) && len(a.itemSizes) == len(a.components) && regInv(&storage.registry.registry)
+//@   requires forall j int :: 0 <= j && j < len(a.components) ==> int(a.components[j].id) < len(storage.registry.Types)
+//@   loop 3 invariant done: forall p int :: 0 <= p && p < __idx ==> tableStats[p].Size == int(storage.tables[a.tables.tables[p]].len) && tableStats[p].Capacity == int(storage.tables[a.tables.tables[p]].cap)
+//@   loop 3 invariant len: len(tableStats) == len(a.tables.tables)
+//@   loop 4 invariant done: forall p int :: 0 <= p && p < len(a.tables.tables) ==> tableStats[p].Size == int(storage.tables[a.tables.tables[p]].len) && tableStats[p].Capacity == int(storage.tables[a.tables.tables[p]].cap)
+//@   loop 4 invariant len: len(tableStats) == len(a.tables.tables)
+//@   ensures  free: result.FreeTables == len(a.freeTables) && result.NumRelations == int(a.numRelations)
+//@   ensures  tables: len(result.Tables) == len(a.tables.tables)
+//@   ensures  per-table: forall p int :: 0 <= p && p < len(a.tables.tables) ==> result.Tables[p].Size == int(storage.tables[a.tables.tables[p]].len) && result.Tables[p].Capacity == int(storage.tables[a.tables.tables[p]].cap)
